@@ -340,7 +340,8 @@ class AASFromJsonDecoder(json.JSONDecoder):
         if reference_type is not model.ModelReference:
             raise ValueError(f"Expected a reference of type {model.ModelReference}, got {reference_type}!")
         keys = [cls._construct_key(key_data) for key_data in _get_ts(dct, "keys", list)]
-        if keys and not issubclass(KEY_TYPES_CLASSES_INVERSE.get(keys[-1].type, type(None)), type_):
+        if keys and keys[-1].type in KEY_TYPES_CLASSES_INVERSE \
+                and not issubclass(KEY_TYPES_CLASSES_INVERSE[keys[-1].type], type_):
             logger.warning("type %s of last key of reference to %s does not match reference type %s",
                            keys[-1].type.name, " / ".join(str(k) for k in keys), type_.__name__)
         return object_class(tuple(keys), type_, cls._construct_reference(_get_ts(dct, 'referredSemanticId', dict))
